@@ -125,7 +125,8 @@ def cases(rng, n, env_rate=0.3):
                                          ("TUPIMAGE_MAX_COLS", "5", "max_cols"), ("TUPIMAGE_FEWER_DIACRITICS", "true", None), ("TUPIMAGE_BACKGROUND", "3", None),
                                          ("TUPIMAGE_ID_SPACE", rng.choice(["16bit", "24bit", "32bit", "8bit_diacritic"]), None), ("TUPIMAGE_ID_SUBSPACE", rng.choice(["100:104", "0:256", "255:256"]), None),
                                          ("TUPIMAGE_NUM_TMUX_LAYERS", rng.choice(["1", "2"]), None), ("TUPIMAGE_FORCE_UPLOAD", "true", None),
-                                         ("TUPIMAGE_REUPLOAD_MAX_UPLOADS_AGO", "1", None), ("TUPIMAGE_UPLOAD_METHOD", "file", None)])
+                                         ("TUPIMAGE_REUPLOAD_MAX_UPLOADS_AGO", "1", None)])
+            # (not the upload method: with `file` the transmitted payload is the path, which names the run's own sandbox directory)
             if key is None or c.get(key) is None:
                 c["env"] = {name: val}
         if rng.random() < 0.25:
